@@ -204,28 +204,39 @@ Lemma needs_quoting_false p :
   needs_quoting p = false -> mem c_sp p = false /\ mem c_tab p = false.
 Proof.
   unfold needs_quoting, quoting_chars. cbn [existsb]. intro H.
+  apply orb_false_iff in H as [H _]. apply orb_false_iff in H as [H _].
+  apply orb_false_iff in H as [H _].
   apply orb_false_iff in H as [H1 H]. apply orb_false_iff in H as [H2 _]. split; assumption.
 Qed.
 
-Lemma needs_quoting_true p :
-  needs_quoting p = true -> mem c_sp p = true \/ mem c_tab p = true \/ mem c_nl p = true.
+Lemma trim_end_app_ws s c : is_ws c = true -> trim_end (s ++ [c]) = trim_end s.
 Proof.
-  unfold needs_quoting, quoting_chars. cbn [existsb]. intro H.
-  apply orb_true_iff in H as [H|H]; [left; exact H|].
-  apply orb_true_iff in H as [H|H]; [right; left; exact H|].
-  apply orb_true_iff in H as [H|H]; [right; right; exact H|discriminate].
+  intro H. induction s as [|x s IH]; cbn [app trim_end].
+  - rewrite H. reflexivity.
+  - rewrite IH. reflexivity.
 Qed.
 
+Lemma split_first_none d s : mem d s = false -> split_first d s = None.
+Proof.
+  intro H. pose proof (split_first_spec d s) as S.
+  destruct (split_first d s) as [[a b]|]; [|reflexivity].
+  destruct S as [-> _]. rewrite mem_false_app in H. cbn [mem] in H. rewrite N.eqb_refl in H.
+  rewrite orb_true_r in H. discriminate.
+Qed.
+
+Lemma format_no_ranges : format_line_ranges [] = [].
+Proof. reflexivity. Qed.
+
+(* an entry with ranges: the line survives trimming as it is *)
 Lemma entry_line_facts e :
-  entry_ok e = true ->
+  entry_ok e = true -> e_ranges e <> [] ->
   let l := entry_line e in
   mem c_nl l = false /\ strip_cr l = l /\ trim_end l = l /\ l <> []
   /\ strip_indent l = Some (e_hash e ++ [c_sp] ++ format_line_ranges (e_ranges e))
   /\ l <> divider.
 Proof.
-  unfold entry_ok. intro H. apply andb_true_iff in H as [H H4]. apply andb_true_iff in H as [H H3].
+  unfold entry_ok. intros H Hne. apply andb_true_iff in H as [H H4]. apply andb_true_iff in H as [H H3].
   apply andb_true_iff in H as [H1 H2]. apply negb_true_iff in H1, H2.
-  assert (Hne : e_ranges e <> []) by (destruct (e_ranges e); [discriminate|discriminate]).
   destruct (format_line_ranges_shape _ Hne) as (F1 & F2 & F3).
   cbn zeta. unfold entry_line, entry_indent.
   assert (L : last_nonws ([32; 32] ++ e_hash e ++ [c_sp] ++ format_line_ranges (e_ranges e)))
@@ -239,21 +250,67 @@ Proof.
   - discriminate.
 Qed.
 
+(* an entry without ranges: "  <hash> " loses its last blank when the reader trims the line *)
+Lemma entry_line_facts_empty e :
+  entry_ok e = true -> e_ranges e = [] ->
+  let l := entry_line e in
+  reader_entry_without_ranges = true
+  /\ mem c_nl l = false /\ strip_cr l = l /\ l <> divider
+  /\ trim_end l = [32; 32] ++ e_hash e /\ e_hash e <> [] /\ mem c_sp (e_hash e) = false.
+Proof.
+  unfold entry_ok. intros H He. apply andb_true_iff in H as [H H4]. apply andb_true_iff in H as [H H3].
+  apply andb_true_iff in H as [H1 H2]. apply negb_true_iff in H1, H2. rewrite He in H3.
+  apply andb_true_iff in H3 as [H3 HT]. apply andb_true_iff in H3 as [HR HN].
+  apply str_eqb_eq in HT.
+  assert (Hh : e_hash e <> []) by (destruct (e_hash e); [discriminate|discriminate]).
+  assert (L : last_nonws (e_hash e)) by (apply trim_fix_last_nonws; assumption).
+  cbn zeta. unfold entry_line, entry_indent. rewrite He, format_no_ranges, app_nil_r.
+  split; [exact HR|]. split; [|split; [|split; [|split; [|split]]]].
+  - rewrite !mem_false_app, H2. reflexivity.
+  - apply strip_cr_id. unfold last_is. rewrite !rev_app_distr. reflexivity.
+  - discriminate.
+  - rewrite app_assoc. rewrite trim_end_app_ws by reflexivity.
+    apply last_nonws_trim. apply last_nonws_app. exact L.
+  - exact Hh.
+  - exact H1.
+Qed.
+
+Lemma entry_line_basic e :
+  entry_ok e = true ->
+  let l := entry_line e in mem c_nl l = false /\ strip_cr l = l /\ l <> divider.
+Proof.
+  intro H. destruct (e_ranges e) as [|r rs] eqn:He.
+  - destruct (entry_line_facts_empty e H He) as (_ & A & B & D & _). auto.
+  - assert (Hne : e_ranges e <> []) by (rewrite He; discriminate).
+    destruct (entry_line_facts e H Hne) as (A & B & _ & _ & _ & D). auto.
+Qed.
+
 Lemma parse_att_entry e ls acc p es0 :
   entry_ok e = true ->
   parse_att (entry_line e :: ls) acc (Some (mkFatt p es0)) =
   parse_att ls acc (Some (mkFatt p (es0 ++ [norm_entry e]))).
 Proof.
-  intro H. destruct (entry_line_facts e H) as (_ & _ & T & Hn & Hs & _).
-  cbn [parse_att]. rewrite T.
-  destruct (entry_line e) as [|c l] eqn:E; [contradiction|]. rewrite <- E in *. clear E c l.
-  rewrite Hs.
-  unfold entry_ok in H. apply andb_true_iff in H as [H H4]. apply andb_true_iff in H as [H H3].
-  apply andb_true_iff in H as [H1 H2]. apply negb_true_iff in H1.
-  change (e_hash e ++ [c_sp] ++ format_line_ranges (e_ranges e))
-    with (e_hash e ++ c_sp :: format_line_ranges (e_ranges e)).
-  rewrite (split_first_app _ _ _ H1).
-  rewrite (parse_format_line_ranges _ H4). reflexivity.
+  intro H.
+  assert (Hc : e_ranges e = [] \/ e_ranges e <> [])
+    by (destruct (e_ranges e); [left; reflexivity|right; discriminate]).
+  destruct Hc as [He|Hne].
+  - destruct (entry_line_facts_empty e H He) as (HR & _ & _ & _ & T & Hh & Hs).
+    cbn [parse_att]. rewrite T.
+    destruct (e_hash e) as [|h0 ht] eqn:Eh; [contradiction|]. rewrite <- Eh in *.
+    change (strip_indent ([32; 32] ++ e_hash e)) with (Some (e_hash e)).
+    change ([32; 32] ++ e_hash e) with (32 :: 32 :: e_hash e). cbv iota.
+    rewrite (split_first_none _ _ Hs), HR.
+    unfold norm_entry. rewrite He. reflexivity.
+  - destruct (entry_line_facts e H Hne) as (_ & _ & T & Hn & Hs & _).
+    cbn [parse_att]. rewrite T.
+    destruct (entry_line e) as [|c l] eqn:E; [contradiction|]. rewrite <- E in *. clear E c l.
+    rewrite Hs.
+    unfold entry_ok in H. apply andb_true_iff in H as [H H4]. apply andb_true_iff in H as [H H3].
+    apply andb_true_iff in H as [H1 H2]. apply negb_true_iff in H1.
+    change (e_hash e ++ [c_sp] ++ format_line_ranges (e_ranges e))
+      with (e_hash e ++ c_sp :: format_line_ranges (e_ranges e)).
+    rewrite (split_first_app _ _ _ H1).
+    rewrite (parse_format_line_ranges _ H4). reflexivity.
 Qed.
 
 Lemma parse_att_entries es : forall ls acc p es0,
@@ -375,7 +432,7 @@ Proof.
   apply andb_true_iff in H as [Hp He]. destruct Hl as [<-|Hl].
   - destruct (path_line_facts _ Hp) as (A & B & _ & _ & _ & D & _). auto.
   - apply in_map_iff in Hl as (e & <- & Hin). rewrite forallb_forall in He.
-    destruct (entry_line_facts e (He e Hin)) as (A & B & _ & _ & _ & D). auto.
+    exact (entry_line_basic e (He e Hin)).
 Qed.
 
 Lemma map_id_on {A} (f : A -> A) l : (forall x, In x l -> f x = x) -> map f l = l.
@@ -428,9 +485,11 @@ Proof.
   induction ls as [|raw ls IH]; intros acc cur; cbn [parse_att]; [discriminate|].
   destruct (trim_end raw) as [|c t] eqn:T; [apply IH|].
   destruct (strip_indent (c :: t)).
-  - destruct (split_first c_sp l) as [[h rs]|]; [|discriminate].
-    destruct (parse_line_ranges rs); [|discriminate].
-    destruct cur; [apply IH|discriminate].
+  - destruct (split_first c_sp l) as [[h rs]|].
+    + destruct (parse_line_ranges rs); [|discriminate].
+      destruct cur; [apply IH|discriminate].
+    + destruct reader_entry_without_ranges; [|discriminate].
+      destruct cur; [apply IH|discriminate].
   - destruct ((reader_quote_min_len <=? N.of_nat (length (c :: t)))
               && first_is c_dq (c :: t) && last_is c_dq (c :: t)) eqn:Q.
     + destruct (unquote (c :: t)) eqn:U; [apply IH|].
@@ -468,45 +527,54 @@ Qed.
 Lemma sort_sorted l : sorted_starts (sort_ranges l) = true.
 Proof. induction l as [|r l IH]; [reflexivity|]. cbn [sort_ranges]. apply insert_sorted, IH. Qed.
 
-Lemma entry_line_grammar e : entry_ok e = true -> entry_line_ok (entry_line e).
+Lemma entry_line_grammar e :
+  entry_ok e = true -> e_ranges e <> [] -> entry_line_ok (entry_line e).
 Proof.
-  unfold entry_ok. intro H. apply andb_true_iff in H as [H H4]. apply andb_true_iff in H as [H H3].
+  unfold entry_ok. intros H Hne. apply andb_true_iff in H as [H H4]. apply andb_true_iff in H as [H H3].
   apply andb_true_iff in H as [H1 H2]. apply negb_true_iff in H1.
   exists (e_hash e), (sort_ranges (e_ranges e)). repeat split.
-  - apply sort_ranges_nonnil. destruct (e_ranges e); [discriminate|discriminate].
+  - apply sort_ranges_nonnil. exact Hne.
   - exact H1.
   - apply sort_sorted.
 Qed.
+
+Lemma needs_quoting_nil : needs_quoting [] = false.
+Proof. vm_compute. reflexivity. Qed.
 
 Lemma path_line_grammar p : path_ok p = true -> path_line_ok (path_line p).
 Proof.
   unfold path_ok. intro H. apply andb_true_iff in H as [Hnl H]. apply negb_true_iff in Hnl.
   exists p. split; [exact Hnl|]. unfold path_line. destruct (needs_quoting p) eqn:Q.
   - split.
-    + intro E. subst. discriminate.
-    + left. split; [|reflexivity]. destruct (needs_quoting_true _ Q) as [A|[A|A]];
-        [rewrite A; reflexivity|rewrite A; apply orb_true_r|congruence].
+    + intro E. subst. rewrite needs_quoting_nil in Q. discriminate.
+    + left. reflexivity.
   - destruct p as [|c p']; [discriminate|]. split; [discriminate|]. right.
     destruct (needs_quoting_false _ Q) as [A B]. rewrite A, B. split; reflexivity.
 Qed.
 
-Lemma att_lines_grammar fs : forallb fatt_ok fs = true -> att_grammar (att_lines fs).
+Definition fatt_has_ranges (f : fatt) : bool :=
+  forallb (fun e => match e_ranges e with [] => false | _ => true end) (f_entries f).
+
+Lemma att_lines_grammar fs :
+  forallb fatt_ok fs = true -> forallb fatt_has_ranges fs = true -> att_grammar (att_lines fs).
 Proof.
-  induction fs as [|f fs IH]; intro H; [constructor|].
-  cbn [forallb] in H. apply andb_true_iff in H as [H1 H2].
+  induction fs as [|f fs IH]; intros H R; [constructor|].
+  cbn [forallb] in H, R. apply andb_true_iff in H as [H1 H2]. apply andb_true_iff in R as [R1 R2].
   unfold fatt_ok in H1. apply andb_true_iff in H1 as [Hp He].
   unfold att_lines. cbn [flat_map]. unfold fatt_lines at 1. cbn [app].
   constructor.
   - apply path_line_grammar, Hp.
   - apply Forall_forall. intros l Hl. apply in_map_iff in Hl as (e & <- & Hin).
-    rewrite forallb_forall in He. apply entry_line_grammar, He, Hin.
-  - apply IH, H2.
+    rewrite forallb_forall in He. unfold fatt_has_ranges in R1. rewrite forallb_forall in R1.
+    apply entry_line_grammar; [apply He, Hin|].
+    specialize (R1 e Hin). destruct (e_ranges e); [discriminate|discriminate].
+  - apply IH; assumption.
 Qed.
 
-Theorem serialize_grammar l : wf_log l = true -> grammar (serialize l).
+Theorem serialize_grammar l : wf_log l = true -> has_ranges l = true -> grammar (serialize l).
 Proof.
-  unfold wf_log. intro H. apply andb_true_iff in H as [Hf _].
-  exists (att_lines (atts l)), (md l). split; [apply att_lines_grammar, Hf|]. split.
+  unfold wf_log. intros H R. apply andb_true_iff in H as [Hf _].
+  exists (att_lines (atts l)), (md l). split; [apply att_lines_grammar; [exact Hf|exact R]|]. split.
   - apply Forall_forall. intros x Hx. apply (att_lines_facts _ Hf x Hx).
   - reflexivity.
 Qed.
@@ -576,16 +644,63 @@ Theorem full_statement_refuted :
   exists l, (forall f, In f (atts l) -> f_path f <> [] /\ ~ In 0 (f_path f))
             /\ deserialize (serialize l) <> Ok (normalize l).
 Proof.
-  exists wit_divider_path. split.
+  exists wit_newline. split.
   - intros f [<-|[]]. split; [discriminate|]. cbn. intros [H|[H|[H|[]]]]; discriminate.
   - apply rt_fails_sound. vm_compute. reflexivity.
 Qed.
 
+(* the classes that remain: a newline inside a path, a blank inside a session hash *)
 Lemma known_classes_fail :
-  rt_fails wit_divider_path = true /\ rt_fails wit_quoted_like = true /\
-  rt_fails wit_trailing_nbsp = true /\ rt_fails wit_newline = true /\
-  rt_fails wit_empty_ranges = true /\ rt_fails wit_hash_space = true.
+  rt_fails wit_newline = true /\ rt_fails wit_hash_space = true.
 Proof. vm_compute. repeat split. Qed.
+
+(* repaired (fix commits in /repo): a file named like the divider, a name wrapped in double quotes, a
+   name ending in a blank the reader trims, an entry without line ranges *)
+Lemma repaired_classes_roundtrip :
+  rt_fails wit_divider_path = false /\ rt_fails wit_quoted_like = false /\
+  rt_fails wit_trailing_nbsp = false /\ rt_fails wit_empty_ranges = false /\
+  wf_log wit_divider_path = true /\ wf_log wit_quoted_like = true /\
+  wf_log wit_trailing_nbsp = true /\ wf_log wit_empty_ranges = true.
+Proof. vm_compute. repeat split. Qed.
+
+(* with the repaired quoting rules the exact side condition is the plain one *)
+Lemma needs_quoting_false_full p :
+  needs_quoting p = false ->
+  str_eqb p divider = false /\ first_is c_dq p = false /\ str_eqb (trim_end p) p = true.
+Proof.
+  unfold needs_quoting. intro H.
+  apply orb_false_iff in H as [H H4]. apply orb_false_iff in H as [H H3].
+  apply orb_false_iff in H as [_ H2].
+  change quoting_literal with (Some divider) in H2. change quoting_lead_dq with true in H3.
+  change quoting_trailing_ws with true in H4. cbn [andb] in H3, H4.
+  apply negb_false_iff in H4. auto.
+Qed.
+
+Lemma path_simple_ok p : path_simple p = true -> path_ok p = true.
+Proof.
+  unfold path_simple, path_ok. intro H. apply andb_true_iff in H as [Hnl Hne]. rewrite Hnl. cbn [andb].
+  destruct (needs_quoting p) eqn:Q; [reflexivity|].
+  destruct p as [|c p']; [discriminate|].
+  destruct (needs_quoting_false_full _ Q) as (A & B & T).
+  rewrite T, A, B. cbn [negb andb]. rewrite andb_false_r. reflexivity.
+Qed.
+
+Lemma entry_simple_ok e : entry_simple e = true -> entry_ok e = true.
+Proof.
+  unfold entry_simple, entry_ok. change reader_entry_without_ranges with true.
+  destruct (e_ranges e); intro H; exact H.
+Qed.
+
+Lemma wf_simple_wf l : wf_simple l = true -> wf_log l = true.
+Proof.
+  unfold wf_simple, wf_log. intro H. apply andb_true_iff in H as [H M]. rewrite M, andb_true_r.
+  rewrite forallb_forall in *. intros f Hf. specialize (H f Hf).
+  apply andb_true_iff in H as [Hp He]. unfold fatt_ok. rewrite (path_simple_ok _ Hp). cbn [andb].
+  rewrite forallb_forall in *. intros e Hin. apply entry_simple_ok, He, Hin.
+Qed.
+
+Theorem roundtrip_simple l : wf_simple l = true -> deserialize (serialize l) = Ok (normalize l).
+Proof. intro H. apply roundtrip, wf_simple_wf, H. Qed.
 
 Definition wit_ok : log :=
   mkLog [mkFatt [97; 32; 98] [mkEntry [104; 49] [Range 5 9; Single 2; Range 100 4294967295]];
